@@ -135,6 +135,11 @@ func cmdCheck(args []string) int {
 		bo, boundedInfo = eng.runBounded(modTextHarness, *repo, *verif, *tier, seed)
 		extraObls = append(extraObls, bo...)
 	}
+	if id == "C01" {
+		var bo []*Obligation
+		bo, boundedInfo = eng.runBounded(genbankHarness, *repo, *verif, *tier, seed)
+		extraObls = append(extraObls, bo...)
+	}
 	if id == "C17" {
 		var bo []*Obligation
 		bo, boundedInfo = eng.runBounded(fastaHarness, *repo, *verif, *tier, seed)
@@ -391,6 +396,20 @@ func cmdCheck(args []string) int {
 		ev.Coverage["bounded_obligations"] = nb
 		ev.Level = "other"
 		ev.Coverage["explanation"] = "two parts: (1) proof: the library steps the commands are built from (Minimize, Invert*, BySegment, Segment, Delete/Erase/Insert/Embed/Rotate/Slice) are under contract and discharged by SMT for all inputs; (2) BOUNDED, not proved: the per-record loops of the six commands are run through the gts binary built from the current tree on every site configuration within the bound stated in /verif/bounded/cli_bounded_test.go, and the residues written are compared with what the property prescribes; obligations named main.commands/bounded:* are outcomes of that enumeration."
+	}
+	if id == "C01" {
+		for k, v := range boundedInfo {
+			ev.Coverage[k] = v
+		}
+		nb := 0
+		for _, o := range all {
+			if o.Kind == "bounded" {
+				nb++
+			}
+		}
+		ev.Coverage["bounded_obligations"] = nb
+		ev.Level = "other"
+		ev.Coverage["explanation"] = "two parts: (1) proof: the residues - NewOrigin/Origin.String lay them out, the ORIGIN reader accepts exactly a layout block of the declared length, Origin.Bytes decodes it to the same residues, for all lengths (obligations shared with C16) - and the writer glue: GenBankWriter.WriteSeq hands the formatter the record itself or the record made of the sequence's GenBankFields metadata, feature table and residues, GenBank.WriteTo writes the one formatted string; (2) BOUNDED, not proved: the text of every other field and of the feature table, and the field grammar (fmt, strings, go-wrap, go-pars: outside the verified subset) - the real writer and the real auto-detecting scanner are run on every record within the bound stated in /verif/bounded/genbank_bounded_test.go (generated records, the corpus of seqio/testdata, and records produced by pipelines of edit operations); obligations named seqio.GenBankParser/bounded:* are outcomes of that enumeration."
 	}
 	if id == "C17" {
 		for k, v := range boundedInfo {
